@@ -17,7 +17,7 @@ import sys
 sys.path.insert(0, os.path.dirname(os.path.abspath(__file__)))
 from rustsrc import Source, Item, ExtractError, mask, match_close, loop_headers, split_args  # noqa: E402
 
-SECTION_KEYS = ('requires', 'ensures', 'decreases', 'invariant', 'loopdec', 'proof', 'returns', 'attr',
+SECTION_KEYS = ('props', 'requires', 'ensures', 'decreases', 'invariant', 'loopdec', 'proof', 'returns', 'attr',
                 'derive+', 'nested', 'specialize', 'novac', 'external_body', 'rename', 'recommends', 'loopiter',
                 'opens_invariants', 'no_unwind')
 
@@ -41,6 +41,7 @@ class Contract:
         self.external_body = False
         self.rename = None
         self.no_unwind = False
+        self.props = None       # property ids this item's semantic clauses serve (None: unit default)
 
     def n_clauses(self):
         n = len(self.requires) + len(self.ensures) + len(self.decreases)
@@ -72,6 +73,8 @@ class Unit:
         self.verbatim = []    # raw text blocks
         self.uses = []
         self.broadcasts = []
+        self.props = []         # default property tags
+        self.encprops = []      # property tags of encodability clauses
         self.defines = {}
         self.items = []
         self.expected_fail = []  # fn ids expected to fail (canary only; known findings are handled by the runner)
@@ -139,6 +142,10 @@ class Unit:
                     self.srcs[parts[1]] = parts[2]
                 elif d == '@spec':
                     self.specs.append(parts[1])
+                elif d == '@props':
+                    self.props = parts[1:]
+                elif d == '@encprops':
+                    self.encprops = parts[1:]
                 elif d == '@define':
                     self.defines[parts[1]] = line.split(None, 2)[2]
                 elif d == '@broadcast':
@@ -166,8 +173,9 @@ class Unit:
                 continue
             if cur is None:
                 continue
-            if not line or line.startswith('#') and section is None:
-                if section and section[0] == 'proof' and buf is not None:
+            in_proof = section is not None and section[0] == 'proof'
+            if not line or ((line == '#' or line.startswith('# ')) and not in_proof):
+                if in_proof and buf is not None:
                     buf.append(raw)
                 continue
             first = line.split()[0]
@@ -189,6 +197,9 @@ class Unit:
                     buf = []
                 elif first == 'returns':
                     c.returns = rest
+                    section = None
+                elif first == 'props':
+                    c.props = rest.split()
                     section = None
                 elif first == 'attr':
                     c.attrs.append(rest)
@@ -385,6 +396,8 @@ class Emitter:
         # nested replacement
         for (a, b, nm) in nested_spans:
             nc = contract.nested.get(nm, Contract())
+            if nc.props is None:
+                nc.props = contract.props
             sub = self.render_fn(body[a:b], nc, fnid + '/' + nm, top=False)
             self.register_fn(fnid + '/' + nm, nc, None, None)
             edits.append((a, ('REPLACE', b, sub)))
@@ -408,6 +421,9 @@ class Emitter:
             'invariants': sum(len(v) for v in contract.invariants.values()),
             'decreases': len(contract.decreases) + sum(len(v) for v in contract.loopdec.values()),
             'external_body': contract.external_body, 'novac': contract.novac,
+            'props': contract.props if contract.props is not None else self.unit.props,
+            'ensures_text': [' '.join(x.split()) for x in contract.ensures],
+            'requires_text': [' '.join(x.split()) for x in contract.requires],
         })
         if contract.external_body:
             self.assumed.append('external_body (contract assumed, body not verified): ' + fnid)
@@ -459,7 +475,7 @@ class Emitter:
             it = s.find('fn', spec.name, lo=blk.body_open + 1, hi=blk.end - 1)
             if it.body_open is None:
                 raise ExtractError('%s has no body' % spec.name)
-            fnid = spec.ident
+            fnid = self_ty + '::' + spec.ident
             text = strip_docs(it.text)
             if c.rename:
                 text = re.sub(r'\bfn\s+' + re.escape(spec.name) + r'\b', 'fn ' + c.rename, text, count=1)
@@ -467,7 +483,7 @@ class Emitter:
             text = '\n'.join(ln[4:] if ln.startswith('    ') else ln for ln in text.split('\n'))
             self.register_fn(fnid, c, rel, it.line_of(it.kw))
             rendered = self.render_fn(text, c, fnid)
-            return '// <<< method %s::%s  (%s:%d)\nimpl %s {\n%s\n}\n' % (self_ty, fnid, rel, it.line_of(it.kw), self_ty, rendered)
+            return '// <<< method %s  (%s:%d)\nimpl %s {\n%s\n}\n' % (fnid, rel, it.line_of(it.kw), self_ty, rendered)
         raise ExtractError('unknown item kind ' + spec.kind)
 
     def specialize(self, text, name, spec):
@@ -595,25 +611,59 @@ def scan_assumptions(text):
 
 
 def vacuity_variant(text, functions):
-    """Clone of the unit in which every contracted exec fn's ensures is replaced by `false`:
-    each such function must then FAIL; one that verifies has a contradictory precondition."""
-    out = []
+    """Unit text plus, for every contracted top-level exec fn F, a clone F__vac with the same
+    precondition and body but `ensures false`.  Each clone must FAIL to verify; a clone that
+    verifies has a contradictory precondition (or a body that cannot return), i.e. F's proof is vacuous.
+    Clones call the original functions, so their contracts are unchanged."""
     lines = text.split('\n')
+    out = []
     i = 0
+    depth = 0
+    start = None
+    cur = None
     while i < len(lines):
         ln = lines[i]
-        if ln.strip() == 'ensures':
-            # drop following marked post lines, insert `false`
-            j = i + 1
-            tag = None
-            while j < len(lines) and '//@@' in lines[j] and '::post#' in lines[j]:
-                tag = lines[j].split('//@@')[1].split('::post#')[0]
-                j += 1
-            out.append(ln)
-            out.append('        false, //@@%s::vacuity#1' % tag)
-            i = j
-            continue
         out.append(ln)
+        mb = re.search(r'//@@begin (\S+)', ln)
+        me = re.search(r'//@@end (\S+)', ln)
+        if mb:
+            if depth == 0:
+                start, cur = i, mb.group(1)
+            depth += 1
+        elif me:
+            depth -= 1
+            if depth == 0 and cur == me.group(1) and cur != 'verif_canary':
+                blk = lines[start:i + 1]
+                # the end marker may share its line with the closing brace; keep only up to the marker
+                clone = []
+                replaced_fn = False
+                in_ens = False
+                done_ens = False
+                for bl in blk:
+                    if not replaced_fn:
+                        rn = cur.split('::')[-1]
+                        nb, n = re.subn(r'\bfn\s+' + re.escape(rn) + r'\b', 'fn %s__vac' % rn, bl, count=1)
+                        if n:
+                            bl = nb
+                            replaced_fn = True
+                    if not done_ens and bl.strip() == 'ensures' and bl.startswith('    ensures'):
+                        clone.append(bl)
+                        clone.append('        false, //@@%s__vac::vacuity#1' % cur)
+                        in_ens = True
+                        continue
+                    if in_ens:
+                        if ('//@@%s::post#' % cur) in bl:
+                            continue
+                        in_ens = False
+                        done_ens = True
+                    bl = bl.replace('//@@begin %s' % cur, '//@@begin %s__vac' % cur)
+                    bl = bl.replace('//@@end %s' % cur, '//@@end %s__vac' % cur)
+                    bl = bl.replace('//@@%s::' % cur, '//@@%s__vac::' % cur).replace('//@@%s/' % cur, '//@@%s__vac/' % cur)
+                    clone.append(bl)
+                if done_ens or in_ens:
+                    # the closing line of the block is `}//@@end X` possibly followed by more; emit the clone after it
+                    out.extend(clone)
+                start = cur = None
         i += 1
     return '\n'.join(out)
 
@@ -635,7 +685,7 @@ def main():
     os.makedirs(os.path.dirname(os.path.abspath(a.out)), exist_ok=True)
     with open(a.out, 'w') as f:
         f.write(text)
-    meta = {'unit': u.name, 'functions': e.functions, 'rules': sorted(e.rules), 'assumed': e.assumed,
+    meta = {'unit': u.name, 'props': u.props, 'encprops': u.encprops, 'functions': e.functions, 'rules': sorted(e.rules), 'assumed': e.assumed,
             'assumption_scan': scan_assumptions(text)}
     with open(a.out + '.meta.json', 'w') as f:
         json.dump(meta, f, indent=1)
